@@ -259,6 +259,13 @@ def r12_3(ctx):
             else:
                 ctx.violation([rle.name, "push"], "replace_line_ending pushes text that is neither a lines() item nor the line_ending parameter: %s" % (
                     [repr(l) for l in lv][:4]), site=ctx.site(rle, bb))
+        # what is returned is the accumulator the pieces were pushed onto (an early `return self.to_string()` is raw text)
+        rl = C.trace(rle, {"l": 0, "p": []})
+        if rl and all(l.kind == "call" and C.callee_name(l.data) in ("std::string::String::new", "std::string::String::with_capacity") for l in rl):
+            ctx.ok("replace_line_ending returns the string it assembled", site=ctx.site(rle, 0))
+        else:
+            ctx.violation([rle.name, "return"], "replace_line_ending can return text it did not assemble from lines() items and line_ending: %s" % (
+                [repr(l) for l in rl][:3]), site=ctx.site(rle, 0))
         ls = calls_to(rle, LINES)
         if not ls or not all(has_param(C.trace(rle, t["args"][0]), rle, "self") for bb, t in ls):
             ctx.violation([rle.name, "lines"], "replace_line_ending no longer splits its input with str::lines()", site=ctx.site(rle, 0))
@@ -574,6 +581,46 @@ def r12_4(ctx):
             ctx.violation(["const", nm], "constant %s is %s, expected %s (unix build)" % (nm, c["value"] if c else None, want))
 
 
+PARTIAL_READS = re.compile(r"^(std::io::BufRead::fill_buf|std::io::Read::read|std::io::Read::read_exact|std::io::Read::take|std::io::Read::read_buf"
+                           r"|std::io::Read::read_vectored|std::io::BufRead::consume|<std::io::BufReader<R> as std::io::(Read|BufRead)>::\\w+)$")
+
+
+@rule("C12", "R12.6", floor=1)
+def r12_6(ctx):
+    """the line ending is sniffed from the COMPLETE first line: the bytes handed to the table function are what
+    `read_until(b'\\n', &mut buf)` appended to an empty buffer, and the length is that call's result (a bounded peek — fill_buf, read,
+    take — sees only a prefix of a long first line and falls back to the OS default)"""
+    lib = ctx.lib
+    tgt = ROLE["get_line_ending_from_buf"]
+    cs = C.all_call_sites(lib, lambda ns, t: tgt in ns)
+    if not cs:
+        ctx.anchor_missing("call of %s" % tgt)
+    RU = "std::io::BufRead::read_until"
+    for (b, bb, t) in cs:
+        site = ctx.site(b, bb)
+        why = None
+        rus = [(rbb, rt) for rbb, rt in calls_to(b, RU) if C.op_const(rt["args"][1]) == "10_u8"]
+        if not rus:
+            why = "no read_until(b'\\n', ..) feeds the sniffing function"
+        else:
+            EMPTY_VEC = ("std::vec::Vec::<T>::new", "std::vec::Vec::<T>::with_capacity")
+            ident = lambda op: {(l.kind, l.bb, C.callee_name(l.data) if l.kind == "call" else None) for l in C.trace(b, op)}
+            buf_id = ident(t["args"][0])
+            if not buf_id or not any(ident(rt["args"][2]) == buf_id for rbb, rt in rus):
+                why = "the buffer inspected is not the one read_until filled"
+            elif not any(l.kind == "call" and any(l.bb == rbb for rbb, rt in rus) for l in C.trace(b, t["args"][1], through_decorators=True)):
+                why = "the length inspected is not the result of read_until"
+            elif not all(k == "call" and nm in EMPTY_VEC for (k, _bb, nm) in buf_id):
+                why = "the buffer does not start empty"
+        partial = [C.callee_name(pt) for pbb, pt in b.calls() if PARTIAL_READS.match(C.callee_name(pt) or "")]
+        if why is None and partial:
+            why = "the reader is also consumed through %s" % sorted(set(partial))
+        if why:
+            ctx.violation([b.name, "first-line-read", why[:60]], "the line ending is not sniffed from the complete first line: %s" % why, site=site)
+        else:
+            ctx.ok("line ending sniffed from read_until(b'\\n') on an empty buffer|%s" % b.name, site=site)
+
+
 @rule("C16", "R16.4", floor=1)
 def r16_4(ctx):
     """no source line is lost: the line that terminated a directive is re-queued (saved tail line) on every path that goes on to
@@ -641,3 +688,12 @@ def r16_6(ctx):
     """escaped text survives: a continuation argument is the line minus exactly the prefix-long head, right-trimmed (= C15 R15.5)"""
     import rules_dir
     rules_dir.r15_5(ctx)
+
+
+@rule("C13", "R13.4", floor=2)
+def r13_4(ctx):
+    """the option's one byte survives `--needed`: an existing output is compared with the fresh text byte for byte (a line-wise or
+    lossy comparison would judge `a\\n` and `a` equal and keep the file written with the other setting) (= C08 R08.2 / C09 R09.1)"""
+    import rules_io
+    rules_io.r08_2(ctx)
+    rules_io.r09_1(ctx)
